@@ -253,9 +253,15 @@ func findContainments(fn *ssa.Function) []Containment {
 				if len(jnd) > 0 || len(jHpF) > 0 {
 					okE2, _ := okEdgesOfCall(call)
 					k := Containment{Fn: fn, Kind: "reljoin", Subject: joined, Root: call.Call.Args[0], At: call, Conj: [][]Edge{okE2, jnd, jHpF}}
+					dirOK := false
+					if dc := callOf(canon(call.Call.Args[1])); dc != nil && isFunc(calleeObj(dc), "path/filepath", "Dir") {
+						dirOK = true
+					}
 					switch {
 					case len(okE2) == 0:
 						k.Why = "error of filepath.Rel is not tested"
+					case !dirOK:
+						k.Why = "the target is joined onto the position of the link itself, not onto its directory (filepath.Rel(root, Dir(position))): one \"..\" too many is absorbed, so a top-level link ../<name of root>/f counts as inside"
 					case len(jnd) == 0:
 						k.Why = `the path from the root is not compared with ".."`
 					case len(jHpF) == 0:
